@@ -45,8 +45,10 @@ ASSUMPTIONS = [
     'accepted; the out-of-range probes are values that stay outside 1..2^25 after rounding',
     'a rejected PUT/GET (Bad record number) is expected to leave LOC, file and buffer unchanged (no record '
     'was accessed)',
-    'two file numbers on the same file are expected to see each other\'s PUTs immediately (DOS has no '
-    'per-handle cache); such violations carry the suffix /two-numbers-same-file',
+    'two file numbers open on the same file are judged as if they saw each other\'s PUTs immediately; '
+    'pcbasic gives each number its own buffered stream (as GW-BASIC under DOS does not keep them coherent '
+    'either: tests/basic/unsorted/LockFilesOutput records that the number closed last prevails), so these '
+    'violations carry the suffix /two-numbers-same-file and are proposed as a known finding',
     'LSET/RSET pad with spaces and truncate on the right, as the GW-BASIC manual says',
     'observation uses Session.get_variable for the FIELD variables and X#=LOF(n)/LOC(n)',
 ]
@@ -494,22 +496,22 @@ def _cfgs(ctx):
         recs = (None, 1, 2, 5)
         probes = (0, '33554436')
         return [
-            (('cfg', 'one', 2, recs, probes), 4),
-            (('cfg', 'one', 1, recs, probes), 3),
-            (('cfg', 'one', 128, recs, probes), 3),
-            (('cfg', 'diff', 2, recs, ()), 3),
-            (('cfg', 'same', 2, recs, ()), 3),
+            (('cfg', 'one', 2, recs, probes), 5),
+            (('cfg', 'one', 1, recs, probes), 4),
+            (('cfg', 'one', 128, recs, probes), 4),
+            (('cfg', 'diff', 2, recs, ()), 4),
+            (('cfg', 'same', 2, recs, ()), 4),
         ]
     recs = (None, 1, 2, 3, 5, 12)
     probes = (0, -1, '33554436', '4E7')
     return [
-        (('cfg', 'one', 2, recs, probes), 6),
-        (('cfg', 'one', 1, recs, probes), 5),
-        (('cfg', 'one', 8, recs, probes), 5),
-        (('cfg', 'one', 128, recs, probes), 5),
-        (('cfg', 'diff', 2, (None, 1, 2, 5), (0,)), 4),
-        (('cfg', 'same', 2, (None, 1, 2, 5), (0,)), 5),
-        (('cfg', 'same', 128, (None, 1, 2, 5), ()), 4),
+        (('cfg', 'one', 2, recs, probes), 7),
+        (('cfg', 'one', 1, recs, probes), 6),
+        (('cfg', 'one', 8, recs, probes), 6),
+        (('cfg', 'one', 128, recs, probes), 6),
+        (('cfg', 'diff', 2, (None, 1, 2, 5), (0,)), 5),
+        (('cfg', 'same', 2, (None, 1, 2, 5), (0,)), 6),
+        (('cfg', 'same', 128, (None, 1, 2, 5), ()), 5),
     ]
 
 
